@@ -38,6 +38,7 @@ FINDER_BOUNDS = {
     'find_utf8': '8 texts of 1-4 byte codepoints, 5 milestone intervals, every position and every sub-selection',
     'find_relative_offsets': 'every selection x every container over 9 positions x 4 offset modes; every cursor pair against every container',
     'find_subselectors': 'every sequence of 2-3 of 10 simple targets (7 text selections of two resources, 3 annotations) x Multi/Composite/Directional',
+    'find_text_ops': 'every sub-range of 6 texts (<= 8 codepoints of 1-4 bytes), 7 needles/delimiters, 3 trim sets; find_text, find_text_nocase, split_text, trim_text vs plain string operations',
     'find_index_walk': 'every range over a 9-character text, forward and backward, 11 known selections',
 }
 
